@@ -355,6 +355,8 @@ def build(tier):
     targets += enums.targets()
     import clones
     targets += clones.targets()
+    import factory
+    targets += factory.targets(tier)
     return {
         'targets': targets, 'vcs': [],
         'decided': [
